@@ -1,0 +1,24 @@
+//! Verification seams. This module only exists when the crate is compiled with
+//! `--cfg paseto_verif`; the symbols below are provided by the verification harness.
+#![allow(unsafe_code)]
+
+unsafe extern "Rust" {
+    fn __paseto_verif_counter_override(block: &mut [u8; 16]);
+    fn __paseto_verif_ecdsa_nonce(out: &mut [u8; 48]) -> bool;
+}
+
+/// The harness may replace a KDF-derived AES-CTR counter block (it returns it unchanged otherwise).
+pub fn counter_override(mut block: [u8; 16]) -> [u8; 16] {
+    unsafe { __paseto_verif_counter_override(&mut block) };
+    block
+}
+
+/// The harness may choose the ECDSA per-signature nonce of the aws-lc backend.
+pub fn ecdsa_nonce() -> Option<[u8; 48]> {
+    let mut k = [0; 48];
+    if unsafe { __paseto_verif_ecdsa_nonce(&mut k) } {
+        Some(k)
+    } else {
+        None
+    }
+}
